@@ -299,6 +299,7 @@ func runC11(r *ev.Run) {
 		rec := &hist.Recorder{}
 		var pool sync.Map // id -> true (added ids, targets for removal)
 		var poolIDs []uint32
+		var removedPool []uint32
 		var poolMu sync.Mutex
 		var addsLeft atomic.Int32
 		addsLeft.Store(int32(sut.maxAdds))
@@ -331,6 +332,17 @@ func runC11(r *ev.Run) {
 							continue
 						}
 						id := idCounter.Add(1)
+						if grng.IntN(5) == 0 && kind != "store" { // (store removal only reaches the writable memtable: id reuse there is outside C08/C11)
+							// update: bring back an id some goroutine has tried to remove (it may be racing with that very removal)
+							poolMu.Lock()
+							if n := len(removedPool); n > 0 {
+								k := grng.IntN(n) // taken out of the pool: one re-add per removal attempt
+								id = removedPool[k]
+								removedPool[k] = removedPool[n-1]
+								removedPool = removedPool[:n-1]
+							}
+							poolMu.Unlock()
+						}
 						op := rec.Begin(g, hist.Add, id)
 						err := sut.add(id, grng)
 						rec.End(op, err == nil, nil, err)
@@ -352,9 +364,23 @@ func runC11(r *ev.Run) {
 						if id == 0 {
 							continue
 						}
+						// HNSW: adding an id that is still live (a re-add overtaking its removal) is a duplicate-id add, outside
+						// every quantifier (it leaves self-loops in the graph); there an id returns only after its removal
+						// completed. For the other kinds a live duplicate is well defined (BM25 replaces, the list-based
+						// indexes hide every copy behind the id's tombstone), so the re-add may race with the removal.
+						if kind != "hnsw" {
+							poolMu.Lock()
+							removedPool = append(removedPool, id)
+							poolMu.Unlock()
+						}
 						op := rec.Begin(g, hist.Remove, id)
 						err := sut.remove(id)
 						rec.End(op, err == nil, nil, err)
+						if kind == "hnsw" && err == nil {
+							poolMu.Lock()
+							removedPool = append(removedPool, id)
+							poolMu.Unlock()
+						}
 					case c < 14:
 						op := rec.Begin(g, hist.Search, 0)
 						seen, err := sut.searchAll()
@@ -430,19 +456,44 @@ func runC11(r *ev.Run) {
 		if err != nil {
 			note("conc."+kind+".search-fails-under-concurrency", "final search failed: "+err.Error())
 		} else {
-			want := map[uint32]bool{}
+			// per id: the state after its LAST successful add/remove, when that op did not overlap any other
+			// successful op on the same id (ids can be re-added after a removal); otherwise the id is skipped
+			byID := map[uint32][]*hist.Op{}
 			for _, o := range ops {
-				if o.Kind == hist.Add && o.OK {
-					want[o.ID] = true
+				if (o.Kind == hist.Add || o.Kind == hist.Remove) && o.OK {
+					byID[o.ID] = append(byID[o.ID], o)
 				}
 			}
-			for _, o := range ops {
-				if o.Kind == hist.Remove && o.OK {
-					delete(want, o.ID)
+			want, skip := map[uint32]bool{}, map[uint32]bool{}
+			for id, l := range byID {
+				last := l[0]
+				for _, o := range l {
+					if o.Call > last.Call {
+						last = o
+					}
+				}
+				for _, o := range l {
+					if o != last && (o.Ret == 0 || o.Ret > last.Call) {
+						skip[id] = true
+					}
+				}
+				if last.Kind == hist.Add {
+					want[id] = true
 				}
 			}
-			if !sameSet(final, want) {
-				note("conc."+kind+".final-state", "after quiescence search-all != successful adds - successful removes: "+setDiff(final, want))
+			f2, w2 := map[uint32]bool{}, map[uint32]bool{}
+			for id := range final {
+				if !skip[id] {
+					f2[id] = true
+				}
+			}
+			for id := range want {
+				if !skip[id] {
+					w2[id] = true
+				}
+			}
+			if !sameSet(f2, w2) {
+				note("conc."+kind+".final-state", "after quiescence search-all differs from the state after each id's last successful add/remove: "+setDiff(f2, w2))
 			}
 		}
 		for _, v := range hist.IntervalCheck(ops) {
